@@ -3,9 +3,11 @@
 //
 // What runs is the real executor code: executorcmd.NewClient (real gRPC client over loopback) ->
 // RpcClient.doTransition (reply acceptance rule) -> transitioner.NewTransitioner(FAIRMQ|DIRECT)
-// -> Commit/doConfigure/doReset, entered through the real executable.ControllableTask (task.go):
-// a MesosCommand_Transition JSON document handed to UnmarshalTransition, then Transition(), and the
-// "state"/"error" fields of the marshalled response - what the executor sends to the core.
+// -> Commit/doConfigure/doReset, entered through the executor's message handler
+// (executor.handleMessageEvent, run by the committed hook executor/zz_verif_c02.go) with a real
+// executable.ControllableTask (task.go) as the active task: a MesosCommand_Transition JSON document
+// goes in, and the "state"/"error" fields of the MESSAGE payload the executor sends to the core
+// are what is observed.
 // The peer is a simulated OCC device (an in-process pb.OccServer): the FairMQ (or OCC direct)
 // state graph plus an outcome script that says, for each request actually issued, whether the
 // device performs it, refuses it in place, goes to ERROR, or whether the request / the reply is
@@ -32,10 +34,12 @@ import (
 	"sort"
 	"strings"
 	"sync"
+	"time"
 
 	"github.com/AliceO2Group/Control/common/controlmode"
 	"github.com/AliceO2Group/Control/common/utils/uid"
 	"github.com/AliceO2Group/Control/core/controlcommands"
+	"github.com/AliceO2Group/Control/executor"
 	"github.com/AliceO2Group/Control/executor/executable"
 	"github.com/AliceO2Group/Control/executor/executorcmd"
 	"github.com/AliceO2Group/Control/executor/executorcmd/transitioner"
@@ -337,26 +341,29 @@ func (s *stack) commit(mode int, evt, src, dst string, nargs int) (string, bool,
 	if err != nil {
 		panic(err)
 	}
-	// what the MesosCommand_Transition arm of executor/handlers.go does with the message
-	cmd, err := s.tasks[mode].UnmarshalTransition(data)
-	if err != nil {
-		panic(err)
+	// the executor's own message handler (handleMessageEvent, through the committed verif hook of
+	// package executor) with the real ControllableTask as the only active task: what comes back is
+	// the payload of the MESSAGE call the executor makes to the core
+	sent, herr := executor.VerifC02HandleMessage(s.target.ExecutorId.Value,
+		map[string]executable.Task{verifTaskId: s.tasks[mode]}, data, 10*time.Second, 0)
+	if herr != nil {
+		return "", true, "the message handler refused the command: " + herr.Error()
 	}
-	resp := s.tasks[mode].Transition(cmd)
-	out, err := json.Marshal(resp)
-	if err != nil {
-		panic(err)
+	if len(sent) != 1 {
+		return "", true, fmt.Sprintf("the executor sent %d MESSAGE calls in answer to a transition command", len(sent))
 	}
 	var back struct {
-		State string `json:"state"`
-		Error string `json:"error"`
+		Name   string `json:"name"`
+		State  string `json:"state"`
+		Error  string `json:"error"`
+		TaskId string `json:"taskId"`
 	}
-	if err := json.Unmarshal(out, &back); err != nil {
-		panic(err)
+	if err := json.Unmarshal(sent[0], &back); err != nil {
+		return "", true, "the MESSAGE sent to the core is not a JSON document"
 	}
 	note := ""
-	if resp == nil || back.State != resp.CurrentState || (back.Error != "") != (resp.Err() != nil) {
-		note = "response document disagrees with the response object"
+	if back.TaskId != verifTaskId {
+		note = "the response names another task"
 	}
 	return back.State, back.Error != "", note
 }
@@ -608,9 +615,10 @@ func genTable(s *stack, path string) {
 	}
 	var out strings.Builder
 	out.WriteString("(* regenerated on every run by `h16 -gen`: exhaustive enumeration, on the running Go code\n" +
-		"   (ControllableTask.UnmarshalTransition/Transition -> ExecutorCommand_Transition.Commit ->\n" +
+		"   (executor.handleMessageEvent -> ControllableTask.UnmarshalTransition/Transition ->\n" +
+		"   ExecutorCommand_Transition.Commit ->\n" +
 		"   transitioner.Commit -> RpcClient.doTransition against the simulated device; observed: the\n" +
-		"   state/error of the marshalled response), of every (mode, event, source state, strictness) and, as a prefix tree, every outcome\n" +
+		"   state/error of the MESSAGE payload sent to the core), of every (mode, event, source state, strictness) and, as a prefix tree, every outcome\n" +
 		"   script: one outcome per request that is actually issued.  Do not edit. *)\n")
 	out.WriteString("From Verif Require Import Common FairMQ.\nOpen Scope N_scope.\n")
 	out.WriteString(p.defs())
